@@ -25,7 +25,9 @@ PID = "C15"
 THEOREMS = ["copy_reads_equal", "copy_root_reads_equal", "mv_reads_equal_plain", "copy_frame", "copy_frame_new", "mv_frame",
             "mv_source_gone_partial", "mv_source_gone_spec", "mv_source_gone_current_false", "d4_counterexample",
             "mv_cross_eq_cp", "mv_cross_file_keeps_source", "list_exact", "d5_counterexample", "isCooler_total",
-            "copy_overwrite_eq", "create_append_frame", "create_root_append_frame", "create_w_replaces", "create_w_eq", "recreate_replaces",
+            "copy_overwrite_eq", "mv_reads_equal", "mv_through_source_counterexample", "copy_into_itself_refused",
+            "copyOp_not_into_itself", "uri_slash", "uri_slash_string", "list_exact_soft", "listing_exact_soft",
+            "create_append_frame", "create_root_append_frame", "create_w_replaces", "create_w_eq", "recreate_replaces",
             "step_wf", "run_wf", "step_lf", "run_lf", "list_exact_history"]
 CHUNK = 1
 FANCHUNK = 75
@@ -33,9 +35,13 @@ FANCHUNK = 75
 FA, FB, FZ = "A.cool", "B.cool", "Z.cool"     # Z is never created: the non-existent file
 FILES = [FA, FB, FZ]
 PATHS = ["/", "/a", "/a/b", "/c"]
+# sibling names one of which is a textual prefix of the other ("/a" vs "/ab", "/a/b" vs "/a/bc"): a path test
+# written with str.startswith instead of components shows only on these
+PREFIX_PAIRS = [("/a", "/ab"), ("/ab", "/a"), ("/a/b", "/a/bc"), ("/a/bc", "/a/b")]
+PATHS_R = PATHS + ["/ab", "/a/bc"]
 # candidate paths for is_cooler: the alphabet, paths a nested copy can create, a dataset, a plain
 # group inside a collection, something below a dataset
-CANDS = ["/", "/a", "/a/b", "/c", "/b", "/c/b", "/c/a", "/a/b/b", "/a/bins/start", "/a/pixels", "/bins/start/x"]
+CANDS = ["/", "/a", "/a/b", "/c", "/ab", "/a/bc", "/b", "/c/b", "/c/a", "/a/b/b", "/a/bins/start", "/a/pixels", "/bins/start/x"]
 FLAGS = ("d4", "d5")
 FID = {"d4": "D4", "d5": "D5"}
 
@@ -50,8 +56,8 @@ DESCRIBE = {
     "parse_uri": "util.parse_cooler_uri vs Lean `parseCoolerUriStr`",
     "constants": "cooler.create.MAGIC vs the model's constant",
 }
-RULE = ("alphabet: files A,B x paths {/, /a, /a/b, /c}; full = 292 ops: create(a/w at every file x path, r+ at two), "
-        "cp/mv/ln/ln -s for every (src file, src path, dst file, dst path), overwrite variants; reduced = 55 ops; URIs with "
+RULE = ("alphabet: files A,B x paths {/, /a, /a/b, /c} plus the prefix-sibling pairs /a~/ab, /a/b~/a/bc in file A; full = 309 ops: create(a/w at every file x path, r+ at two), "
+        "cp/mv/ln/ln -s for every (src file, src path, dst file, dst path), overwrite variants; reduced = 59 ops; URIs with "
         "and without leading slash (hash-chosen per op, both forms in observations). quick: every op of the full alphabet "
         "at every model-distinct state reachable in <=1 state-changing step from I1 (A holds /a and an unrelated root "
         "attribute; B absent) and every op of the reduced alphabet at every state <=1 step from I2 (A holds / and /a/b, B "
@@ -66,8 +72,11 @@ TRUSTED = ["HDF5/h5py (groups, hard/soft/external links, attributes, file modes,
 ASSUMPTIONS = [
     "a step the model marks as an unmodelled h5py corner ends the history without a verdict (counted in stats as "
     "corner:<reason>; the step is not executed): (1) 'hard link below its own target (cycle)' and 'cyclic namespace' — "
-    "ln/mv whose destination lies inside the linked group, soft links to an ancestor or to themselves, an external "
-    "link copied into its own target file: h5py answers RecursionError / 'too many links' and the set of paths is "
+    "since fix D26 the direct spellings (same-file mv/ln/ln -s with the destination equal to or under the source path) "
+    "are refused with ValueError and ARE checked (regression guard); what remains without a verdict are cycles that "
+    "arise only through links (ln/mv whose destination resolves, through a soft link, inside the linked group; soft "
+    "links closing a loop with an earlier dangling one; external links pointing at each other's files; an external "
+    "link copied into its own target file): h5py answers RecursionError / 'too many links' and the set of paths is "
     "infinite; (2) '... multiply linked group' — a group object reachable under two hard-link names is modified in "
     "place (the model duplicates hard-linked regions, which is exact as long as neither copy changes); (3) "
     "'destination parent passes through an external link / an unresolvable link / a dataset', 'source parent passes "
@@ -577,6 +586,10 @@ def alphabet_full():
                 ops.append(_mk_copy(kind, sf, sp, df, "/a", True))
     ops.append(_mk_copy("cp", FA, "/a", FA, "/c", True))
     ops.append(_mk_copy("mv", FA, "/a", FA, "/c", True))
+    ops.append(_mk_create(FA, "/ab", "a", 63))
+    for kind in ("cp", "mv", "ln", "lns"):
+        for sp, dp in PREFIX_PAIRS:
+            ops.append(_mk_copy(kind, FA, sp, FA, dp))
     return ops
 
 
@@ -591,6 +604,9 @@ def alphabet_reduced():
             ops.append(_mk_copy(kind, sf, sp, df, dp))
     ops.append(_mk_copy("cp", FA, "/a", FB, "/a", True))
     ops.append(_mk_copy("lns", FA, "/a", FB, "/a", True))
+    for kind in ("mv", "ln", "lns"):
+        ops.append(_mk_copy(kind, FA, "/a", FA, "/ab"))
+    ops.append(_mk_copy("mv", FA, "/a/b", FA, "/a/bc"))
     return ops
 
 
@@ -628,9 +644,9 @@ def _random_history(rng, n):
     ops = []
     if rng.random() < 0.7:
         ops.append({"op": "note", "file": FA, "value": "keep-me"})
-    ops.append({"op": "create", "uri": _uri(FA, rng.choice(PATHS), rng.random() < 0.5), "mode": "a", "content": 1, "alt": rng.random() < 0.5})
+    ops.append({"op": "create", "uri": _uri(FA, rng.choice(PATHS_R), rng.random() < 0.5), "mode": "a", "content": 1, "alt": rng.random() < 0.5})
     if rng.random() < 0.5:
-        ops.append({"op": "create", "uri": _uri(rng.choice([FA, FB]), rng.choice(PATHS), rng.random() < 0.5), "mode": "a", "content": 2,
+        ops.append({"op": "create", "uri": _uri(rng.choice([FA, FB]), rng.choice(PATHS_R), rng.random() < 0.5), "mode": "a", "content": 2,
                     "alt": rng.random() < 0.5})
     c = 2
     for _ in range(n):
@@ -639,18 +655,18 @@ def _random_history(rng, n):
             r = rng.random()
             if r < 0.22:
                 c += 1
-                op = {"op": "create", "uri": _uri(rng.choice([FA, FB]), rng.choice(PATHS), rng.random() < 0.5),
+                op = {"op": "create", "uri": _uri(rng.choice([FA, FB]), rng.choice(PATHS_R), rng.random() < 0.5),
                       "mode": rng.choice(["a", "a", "a", "w", "r+"]), "content": c, "alt": rng.random() < 0.5}
             else:
                 kind = rng.choice(["cp", "cp", "mv", "mv", "ln", "lns", "lns"])
                 if existing and rng.random() < 0.8:
                     sf, sp = rng.choice(existing)
-                    if sp not in PATHS and rng.random() < 0.5:
-                        sp = rng.choice(PATHS)
+                    if sp not in PATHS_R and rng.random() < 0.5:
+                        sp = rng.choice(PATHS_R)
                 else:
-                    sf, sp = rng.choice([FA, FB]), rng.choice(PATHS)
+                    sf, sp = rng.choice([FA, FB]), rng.choice(PATHS_R)
                 df = sf if rng.random() < 0.5 else rng.choice([FA, FB])
-                dp = rng.choice(PATHS)
+                dp = rng.choice(PATHS_R)
                 op = {"op": kind, "src": _uri(sf, sp, rng.random() < 0.5), "dst": _uri(df, dp, rng.random() < 0.5),
                       "alt": rng.random() < 0.5}
                 if rng.random() < 0.12:
@@ -682,6 +698,15 @@ CORPUS = [
     [_mk_create(FA, "/a", "a", 1), _mk_copy("mv", FA, "/a", FA, "/c"), _mk_copy("ln", FA, "/c", FA, "/a"),
      _mk_copy("lns", FA, "/c", FA, "/a/b")],
     [_mk_create(FA, "/c", "a", 1), _mk_copy("lns", FA, "/c", FA, "/a"), _mk_create(FA, "/a/b", "a", 2), _mk_create(FA, "/c", "a", 3)],
+    # D26 (fixed): a group is not moved or linked into itself — ValueError, nothing changes
+    [_mk_create(FA, "/a", "a", 1), _mk_copy("mv", FA, "/a", FA, "/a/b"), _mk_copy("ln", FA, "/a", FA, "/a/c"),
+     _mk_copy("lns", FA, "/a", FA, "/a/c"), _mk_copy("lns", FA, "/", FA, "/c"), _mk_copy("mv", FA, "/a", FA, "/a"),
+     _mk_copy("cp", FA, "/a", FA, "/a/b")],
+    [_mk_copy("mv", FB, "/", FB, "/a")],
+    # sibling whose name extends the source's name is NOT "under" it: plain rename, the source goes
+    [_mk_create(FA, "/a", "a", 1), _mk_copy("mv", FA, "/a", FA, "/ab")],
+    [_mk_create(FA, "/a/b", "a", 1), _mk_copy("mv", FA, "/a/b", FA, "/a/bc"), _mk_copy("ln", FA, "/a/bc", FA, "/a/b"),
+     _mk_copy("lns", FA, "/a", FA, "/ab")],
     # overwrite truncates the destination file; same-file overwrite is refused
     [_mk_create(FA, "/a", "a", 1), _mk_create(FB, "/c", "a", 2), _mk_copy("cp", FA, "/a", FB, "/a", True),
      _mk_copy("cp", FA, "/a", FA, "/c", True)],
